@@ -559,6 +559,10 @@ package commitlog
 //@   assumes l.vActiveSegment != nil
 //@   call send.ch requires [the-end-is-announced-only-when-the-watermark-has-reached-the-log-end] arg1 && l.hw >= nextOffset(l) - 1
 //@   ensures [readers-below-a-lagging-watermark-stay-parked] old(l.hw) < old(nextOffset(l)) - 1 ==> l.hwWaiters == old(l.hwWaiters)
+//@   ensures [at-the-end-of-a-read-only-log-every-parked-reader-is-told] old(l.hw) >= old(nextOffset(l)) - 1 ==> (forall r contextReader :: !(r in l.hwWaiters))
+//@   loop 1 invariant l == old(l) && l != nil
+//@   loop 1 invariant [nobody-is-added] forall r contextReader :: (r in l.hwWaiters) ==> old(r in l.hwWaiters)
+//@   loop 1 invariant [told-readers-are-forgotten] forall r contextReader :: visited(r) ==> !(r in l.hwWaiters)
 //@ func (*commitLog).HighWatermark serves C03, C01, C10, C11
 //@   requires l != nil
 //@   modifies nothing
